@@ -303,10 +303,10 @@ func (p c01) RunBatch(c *fw.Ctx) {
 func (p c01) ReplayCase(c *fw.Ctx, input json.RawMessage) {
 	InitGrol(nil)
 	var cs struct {
-		Src      string  `json:"src"`
-		WantOut  *string `json:"want_out"`
-		WantVal  *string `json:"want_val"`
-		WantErr  *bool   `json:"want_err"`
+		Src     string  `json:"src"`
+		WantOut *string `json:"want_out"`
+		WantVal *string `json:"want_val"`
+		WantErr *bool   `json:"want_err"`
 	}
 	if err := json.Unmarshal(input, &cs); err != nil {
 		return
